@@ -440,7 +440,15 @@ func (ex *Exec) callE2(st *State, c *cont, f *gframe, fr *Frame, in *ssa.Call) b
 			}
 		}
 	}
-	if fn != nil && fn.Blocks != nil && ex.Stubs[fnName(fn)] == nil && ex.prefixStub(fn, fnName(fn)) == nil && (ex.isUnderTest(fn) || isSyntheticWrapper(fn)) {
+	flagStub := false
+	if fn != nil {
+		for fl := range ex.Flags {
+			if _, ok := ex.Stubs["flag:"+fl+":"+fnName(fn)]; ok {
+				flagStub = true
+			}
+		}
+	}
+	if fn != nil && fn.Blocks != nil && !flagStub && ex.Stubs[fnName(fn)] == nil && ex.prefixStub(fn, fnName(fn)) == nil && (ex.isUnderTest(fn) || isSyntheticWrapper(fn)) {
 		for _, a := range call.Args {
 			args = append(args, ex.val(fr, a))
 		}
